@@ -10,7 +10,9 @@ import pathlib
 import sys
 
 HERE = pathlib.Path(__file__).resolve().parent
-GEN = HERE.parent / "lean" / "Capella" / "Gen"
+import os
+
+GEN = pathlib.Path(os.environ.get("VERIF_LEAN") or (HERE.parent / "lean")) / "Capella" / "Gen"
 
 GENERATORS: list = []  # filled by gen_* modules: callables returning {filename: content}
 
